@@ -24,7 +24,6 @@
 from __future__ import annotations
 
 from abc import ABC, abstractmethod
-from functools import lru_cache
 from typing import Union
 
 from bip_utils.addr import P2PKHAddr, P2WPKHAddr
@@ -209,7 +208,6 @@ class ElectrumV2Standard(ElectrumV2Base):
         """
         return self.__DeriveKey(change_idx, addr_idx).PublicKey()
 
-    @lru_cache()
     def GetAddress(self,
                    change_idx: Union[int, Bip32KeyIndex],
                    addr_idx: Union[int, Bip32KeyIndex]) -> str:
@@ -231,7 +229,6 @@ class ElectrumV2Standard(ElectrumV2Base):
         return P2PKHAddr.EncodeKey(self.GetPublicKey(change_idx, addr_idx).KeyObject(),
                                    net_ver=CoinsConf.BitcoinMainNet.ParamByKey("p2pkh_net_ver"))
 
-    @lru_cache()
     def __DeriveKey(self,
                     change_idx: Union[int, Bip32KeyIndex],
                     addr_idx: Union[int, Bip32KeyIndex]) -> Bip32Base:
@@ -312,7 +309,6 @@ class ElectrumV2Segwit(ElectrumV2Base):
         """
         return self.__DeriveKey(change_idx, addr_idx).PublicKey()
 
-    @lru_cache()
     def GetAddress(self,
                    change_idx: Union[int, Bip32KeyIndex],
                    addr_idx: Union[int, Bip32KeyIndex]) -> str:
@@ -334,7 +330,6 @@ class ElectrumV2Segwit(ElectrumV2Base):
         return P2WPKHAddr.EncodeKey(self.GetPublicKey(change_idx, addr_idx).KeyObject(),
                                     hrp=CoinsConf.BitcoinMainNet.ParamByKey("p2wpkh_hrp"))
 
-    @lru_cache()
     def __DeriveKey(self,
                     change_idx: Union[int, Bip32KeyIndex],
                     addr_idx: Union[int, Bip32KeyIndex]) -> Bip32Base:
